@@ -72,6 +72,36 @@ CLAIMED = {
    text="Bounded exhaustive model checking of the media-merge function through the public API: every ordered pair (thorough: every ordered triple and every 2-list x single in both nesting orders) of the 63-query alphabet is compiled, the emitted @media structure is read back by an independent reader and evaluated in all 24 media environments against the conjunction of the source queries. The alphabet covers every branch of MediaQuery::merge (type-less, all, equal/different types, not/only/no modifier, subset/non-subset feature sets).",
    note="Assumes features are independent opaque booleans and three media types suffice (screen, print, and one type mentioned by no query). Pairs of two negated queries of the same type are excluded as the property states. Queries longer than 3 features, case variants and interpolated query text are outside the alphabet.",
    design="§3 C17"),
+ "C03": dict(
+   technique="exhaustive enumeration of four bounded program grammars (scoping frames, control flow, callables x call shapes, operator trees) executed on the real compiler and on a reference interpreter written from the language reference; equality of all observable values and of the @debug/@warn log",
+   text="Scoping: 10 frame kinds (style rule, @if/@else at root, @each, @for, @while, mixin defined in place / at root, function, content block) x bodies of <= 2 statements from an 8-statement alphabet ($x assignment, increment, !global, !default, copy, probes) with one nested frame before/after x 4 placements; closures: every sequence of <= 4 (thorough 5) steps over {define function / mixin reading $x, assign $x, assign !global, call, include, probe} in 5 enclosing contexts; control flow: @for from,to in -2..3 x {to, through} with and without @return from the loop, @each over 7 list/map shapes x 1-3 variables, @while, nested loops with @return, @if chains over 10x10 truthiness classes; callables: every parameter list of <= 3 parameters (required / default / default referring to the previous parameter / rest) x 42 call shapes as function and as mixin, @content(args) using (params); operators: all binary expressions over 12 operators x 9x9 leaves, all 2-operator (thorough 3-operator) trees in both associations, each also compared with its fully parenthesised spelling, and/or short-circuit observed through a logging function. Every program: grass and the reference interpreter agree on every probe value, on the log, or both fail.",
+   note="The reference interpreter (mc/src/models/interp.rs: frames are plain maps with a semi-global flag, closures capture the frame list, argument binding per the reference) is part of the trusted base. Values are integers, short strings, booleans, null, flat lists and maps. `null + null` / `-(null)` are skipped as not settled by the reference material.",
+   design="§3 C03, A.1"),
+ "C10": dict(
+   technique="exhaustive enumeration of @extend programs; semantic oracle: every emitted selector list judged on every DOM tree of <= 3 elements over the program's features by an independent selector matcher",
+   text="23 target selectors x 9 extenders x 8 targets x 2 rule orders, 8 two-extend shapes (chains, cycles, shared targets) under every rule permutation, shared pseudo arguments and trimming shapes (3.4k programs); for each, on every DOM of <= 3 (thorough 4) elements: every element matched by the output would be matched by the source rule once extenders are credited with their targets (soundness), every credited element is matched when the extender is a single compound (completeness), original selectors survive (first law), specificity does not drop (second law), no placeholder is emitted; 11 error/scope shapes (missing target with/without !optional, complex targets, across and inside @media).",
+   note="Complex extenders are judged for soundness only (Sass deliberately omits interleavings); extenders and targets under :not() with complex extenders are excluded. Open findings: missing-target and cross-@media errors are not raised; extension chains declared before their target or through a type selector lose members.",
+   design="§3 C10"),
+ "C11": dict(
+   technique="complete enumeration of ordered selector pairs over a 45-selector alphabet for every sass:selector function; semantic oracle on all DOM trees of <= 3 elements; cross-validation against the @extend / nesting machinery",
+   text="All 45^2 ordered pairs of a 45-selector alphabet: every is-superselector `true` answer verified on every DOM of <= 3 elements; every non-null selector-unify result matches only what both inputs match on every DOM, and null is refused for conflict-free compounds; selector-nest on all ordered pairs and selector-append with 5 suffixes equal the selector of the equivalent nested style rule compiled in the same stylesheet; selector-extend (45 selectors x 6 targets x 6 extenders) equals the rewritten selector of the corresponding @extend program as a set of complex selectors and selector-replace is contained in it; selector-parse then print keeps the match set on every DOM. A panic anywhere is a violation.",
+   note="DOM trees have <= 3 elements with labels over the features the judged selectors mention plus one unmentioned type; attribute and pseudo selectors with different text are independent opaque features. ::slotted and :not() with complex arguments are outside the alphabet for extend.",
+   design="§3 C11"),
+ "C12": dict(
+   technique="exhaustive enumeration of module graphs (every edge kind between every ordered module pair) and of member-visibility / configuration shapes over an in-memory file system, against a reference module model",
+   text="All 4^3 (thorough 4^6) graphs over 3 (4) modules with edges i<j in {none, @use, @use as *, @forward}: each module is evaluated once (observed through @debug), CSS is emitted once in dependency order, every variable/function/mixin/private probe through every namespace and bare resolves or fails as the reference visibility model says, and assignments through two namespaces of one module are shared; every 1-, 2- and 3-cycle of @use/@forward is an error; 12 forwarding shapes (show/hide of each member kind, prefix, prefix+show/hide) x 3 @use forms x 13 member probes; 19 `with` shapes (!default / non-default / unknown / private / duplicate variables, already-loaded modules, configuration through plain, prefixed, show/hide and pre-configured @forward); 6 x 6 spellings of one partial from two importers load one module; 64 module functions against their global aliases.",
+   note="The in-memory Fs canonicalises paths lexically; member names carry the module index so that no accidental conflicts arise in the graph space.",
+   design="§3 C12"),
+ "C16": dict(
+   technique="exhaustive enumeration of calc()/min/max/clamp expression trees to depth 2 over typed leaves x 4 spellings; symbolic unit-vector typing oracle and numeric evaluation in three unit environments",
+   text="All trees of depth <= 1 over 11 leaves and of depth <= 2 over 6 (thorough 8) leaves x {minimal parentheses, full parentheses, operands through variables, relative operands interpolated} (1.1M cases): the expression is rejected exactly when its typing is ill-formed (sum of incompatible known units, product with two dimensions, ...); otherwise the emitted value - a number or a simplified calc - evaluates to the same quantity as the source expression in three environments assigning lengths to relative units; fully numeric expressions fold to a plain number; min/max/clamp pick the right operand including across convertible units; outputs are stable under re-compilation.",
+   note="A percentage is treated as a length in the environments; cases whose typing depends on what a percentage stands for, and division by zero, are skipped. Interpolated operands are opaque text (kept, not typed).",
+   design="§3 C16"),
+ "C19": dict(
+   technique="exhaustive enumeration of failing inputs (C01's generators) with a location oracle against the supplied file texts, and of logging programs x configurations against the reference interpreter's delivery sequence; process streams captured around a child process",
+   text="Error locations: every token string of length <= 2 (thorough <= 3 in 8 contexts) over the 46-token alphabet in 22 contexts x {scss, indented}; every built-in x argument tuple of arity <= 2 over the 40-value universe; 49 value positions x the universe; every error!() corpus input (thorough: every single-token deletion of compiling corpus inputs); 12 interpolated strings x 18 re-lexed positions x 3 prefixes; 16 failing snippets x 6 load rules x {direct, through an intermediate file, inside a mixin / function defined in the imported file}: each error names a file of the compilation, carries that file's text, begin <= end lie inside it, both renderings succeed and start with `Error: <message>` and show the location, ASCII mode has no box characters. @error: 40 values x 5 placements, message = inspect() text, line = the directive's. Delivery: 12 program shapes x 7x7 @debug/@warn statement pairs x {one file, @import, @use as *} x 5 executions on one thread (plain, quiet, quiet+ASCII, ASCII, plain again): kind, message, file, line and order equal the reference interpreter's log with repeated (directive, message) warnings collapsed; nothing under quiet. Silence: a child process compiling the logging, failing and warning-raising programs with a collecting Logger leaves both process streams empty.",
+   note="Whether a quoted string reaches the Logger with its quotes in @warn is not compared (grass delivers `\"x\"`, dart-sass `x`; the property does not fix it). Loop heads with huge bounds are excluded from the value positions (unbounded loops).",
+   design="§3 C19"),
 }
 
 NOT_YET = "not claimed in this revision: the check described in DESIGN.md is not built yet (work in progress; no alternative technique is substituted)"
